@@ -279,8 +279,10 @@ def graph_history(n, m):
                                     "(shortest-chain clause, checked after every insertion)")
 
 
-def cycle_history(n):
-    """the n-cycle plus every insertion order and orientation (the smallest shape on which a shortest-chain defect can show)"""
+def cycle_history(n, nflips=None):
+    """the n-cycle plus every insertion order and orientation (the smallest shape on which a shortest-chain defect can show);
+    nflips bounds the number of links whose orientation is symbolic (the others are inserted low -> high)"""
+    nflips = n if nflips is None else nflips
     def body(Node):
         und = [(i, (i + 1) % n) for i in range(n)]
         order = list(itertools.permutations(range(n)))[choice("perm", _fact(n))]
@@ -289,7 +291,7 @@ def cycle_history(n):
         hist = []
         for k in order:
             a, b = und[k]
-            if choice(f"f{k}", 2):
+            if k < nflips and choice(f"f{k}", 2):
                 a, b = b, a
             nodes[a] + nodes[b]
             adj[a][b] = adj[b][a] = True
@@ -298,7 +300,8 @@ def cycle_history(n):
             if err:
                 return hist, err
         return hist, None
-    return lambda: run_choice_group(f"cycle{n}", body, f"the {n}-cycle under every insertion order and orientation")
+    return lambda: run_choice_group(f"cycle{n}", body, f"the {n}-cycle under every insertion order and every orientation of "
+                                    f"{nflips} of its links")
 
 
 # --------------------------------------------------------------------------- (iv) registering new leaves does not disturb old pairs
@@ -484,8 +487,11 @@ def groups(tier):
             g[f"induct{n1}+{t - n1}"] = inductive(n1, t - n1)
     g["graph3"] = graph_history(3, 4)
     g["graph4"] = graph_history(4, 3 if tier == "quick" else 4)
-    for n in (3, 4, 5) + ((6,) if tier != "quick" else ()):
-        g[f"cycle{n}"] = cycle_history(n)
+    g["cycle3"] = cycle_history(3)
+    g["cycle4"] = cycle_history(4)
+    g["cycle5"] = cycle_history(5, 3 if tier == "quick" else 5)
+    if tier != "quick":
+        g["cycle6"] = cycle_history(6, 3)
     g["registration"] = registration_group
     for p in range(6):
         g[f"crosshair{p}"] = crosshair_group(p)
